@@ -322,6 +322,7 @@ class Program:
         self.impls = []
         self.consts = {}
         self.helper_attrs = []
+        self.promoted = {}
         self.crate = None
         self.end = None
         import gc
@@ -347,6 +348,8 @@ class Program:
                     self.consts[r["path"]] = r
                 elif k == "helper_attr":
                     self.helper_attrs.append(r)
+                elif k == "promoted":
+                    self.promoted[r["path"]] = r
                 elif k == "crate":
                     self.crate = r
                 elif k == "end":
